@@ -322,15 +322,18 @@ func (s *Sel) Wait() int {
 	var idx int
 	switch {
 	case len(free) > 0:
+		// Go chooses uniformly among ready cases; an armed timer may have fired too.
+		// Default: first ready case in source order; every other one is an environment deviation.
+		opts := append(append([]int{}, free...), paid...)
 		k := 0
-		if len(free) > 1 {
-			costs := make([]int, len(free))
-			for i := 1; i < len(free); i++ {
+		if len(opts) > 1 {
+			costs := make([]int, len(opts))
+			for i := 1; i < len(opts); i++ {
 				costs[i] = costE
 			}
 			k = x.choose(costs, "select-case")
 		}
-		idx = free[k]
+		idx = opts[k]
 	case s.hasDef:
 		return -1
 	case len(paid) > 0:
